@@ -7,7 +7,7 @@ the roots and checks  allocated(o)  and  ref_count(o) >= indegree(o)  for every 
 (vf/probes/heap_probe.c).  A double release / use after free inside the VM is an ASan abort.
 
 Enumerated:
-  H  heap operation sequences: all sequences (length <= L) over an alphabet of ~36 statements acting on a
+  H  heap operation sequences: all sequences (length <= L) over an alphabet of ~70 statements acting on a
      fixed set of live variables (string, two array<string> that may alias, array<array<string>>, struct
      holding an array and a string, tuple, union, closure capturing an array and a string, hashmap,
      global array) - aliasing, storing into containers, overwriting while aliased, returning through
@@ -38,7 +38,7 @@ Enumerated:
          control with a second read, parameter, local of a callee frame that is dead when the value is read)
        x sink (typed let, array literal, argument of a call),
      followed by the same churn and a read of the extracted value.
-  leak  every P and T case as the body of a loop of its own (16 and 128 calls, fresh seeds per call and per case): the
+  leak  every P and T case as the body of a loop of its own (8 and 64 calls, fresh seeds per call and per case): the
      number of objects it leaves behind must not depend on the number of calls.
 Combinations the front end cannot type are excluded by explicit rules (t_supported, kinds of PRODUCERS / DERIVED /
 ACCESS), never by trial: a P / T program that does not compile is a harness error.
@@ -46,6 +46,7 @@ ACCESS), never by trial: a P / T program that does not compile is a harness erro
 import itertools
 import os
 import re
+import time
 
 from .. import common, langrun
 from . import langcommon
@@ -196,6 +197,17 @@ OPS = {
     "grow":      ('set b (grow a s)', True),
     "early":     ('set c (+ c (early s 1))', False),
     "early0":    ('set c (+ c (early s 0))', False),
+    # arrays that do not come from a string literal (array_new / loop / element-wise results carry another element tag)
+    "anew":      ('set a (array_push (array_push (array_new 0 "") s) (+ s "n"))', False),
+    "fill":      ('set a (array_new 2 (+ s "f"))', False),
+    "loop_push": ('set b []\n    for j in (range 0 2) { set b (array_push b (+ s (int_to_string j))) }', False),
+    "ew_as":     ('set a (+ a "w")', False),
+    "ew_aa":     ('set b (+ a b)', False),
+    # accesses on a value that only the operand stack references
+    "tmp_name":  ('set s (mkbox a (+ s "t")).name', False),
+    "tmp_xs":    ('set b (mkbox (mk s) s).xs', False),
+    "tmp_at":    ('set s (up (at (mk s) 0))', False),
+    "tmp_deep":  ('set s Outer { b: (mkbox b (+ s "d")), tag: 1 }.b.name', False),
 }
 CORE = ["push_new", "alias", "renew", "set_dup", "pop", "remove0", "box", "box_xs", "tup", "clo", "g_set", "mk", "slice_tl", "n_push", "bs_get"]
 
@@ -948,7 +960,7 @@ def run(tier):
         return ok
 
     mods = compile_all(jobs)
-    common.log("compiled %d modules (%d H sequences, %d enumerator cases, %d value-shape cases)" % (len(mods), len(seqs), len(cases), len(vcases)))
+    common.log("compiled %d modules (%d H sequences, %d enumerator cases, %d value-shape cases) [%.0fs]" % (len(mods), len(seqs), len(cases), len(vcases), time.time() - rep.t0))
 
     vmods = [m for m in mods if srcinfo[m][0] == "V"]
     omods = [m for m in mods if srcinfo[m][0] != "V"]
@@ -1066,6 +1078,7 @@ def run(tier):
     if not vbad and (vlines < 5 * len(vcases) or len(vdistinct) < 2000):
         raise common.HarnessError("value-shape layers look vacuous: %d lines compared, %d distinct" % (vlines, len(vdistinct)))
 
+    common.log("audited %d modules, %d audits [%.0fs]" % (len(mods), total_audits, time.time() - rep.t0))
     # ---- churn family
     names = [o for o in OPS if not OPS[o][1]]
     cseqs = [(x,) for x in names] + (list(itertools.product(names, repeat=2)) if tier != "quick" else [(x, y) for x in names for y in CORE if not OPS[y][1]])
@@ -1112,6 +1125,7 @@ def run(tier):
             rep.violation(key, {"program_K64.nano": churn_program(sq, 64), "program_K512.nano": churn_program(sq, 512)},
                           "live objects grow with the iteration count although every value dies each iteration: loop body %s: peak live objects %d after 64 iterations, %d after 512" % (culprit, p64, p512),
                           "# heap_probe live 50000000 <module compiled from program_K64.nano / program_K512.nano>; compare peak_live")
+    common.log("churn family done (%d loop bodies) [%.0fs]" % (len(cseqs), time.time() - rep.t0))
     # ---- leak family: every value-shape case as a loop body (all its values die when the call returns)
     LK = (8, 64)
     LB = 40
@@ -1186,6 +1200,7 @@ def run(tier):
         rep.violation("leak:" + cause, {"program_K%d.nano" % LK[0]: leak_program([c0], LK[0]), "program_K%d.nano" % LK[1]: leak_program([c0], LK[1]),
                                         "leaking_cases.txt": "".join("%s: %d -> %d\n" % (c["desc"], a, b) for c, a, b in lst)},
                       summary, "# heap_probe live 400000000 <module compiled from program_K%d.nano / program_K%d.nano>; compare final_live" % LK)
+    common.log("leak family done (%d loop bodies) [%.0fs]" % (ljudged, time.time() - rep.t0))
     rep.count("states", len(vcases))
     rep.count("transitions", lsteps)
     rep.coverage["leak_loop_bodies"] = ljudged
